@@ -68,6 +68,10 @@ func CanonSchema(s *ast.Schema) []CanonDef {
 				continue
 			}
 			cf := CanonFld{Name: f.Name, Type: f.Type.String()}
+			if d.Kind == ast.InputObject && f.DefaultValue != nil {
+				// the default of an input field is part of what a service declares for it (types are SDL text)
+				cf.Type += " = " + f.DefaultValue.String()
+			}
 			for _, a := range f.Arguments {
 				def := ""
 				if a.DefaultValue != nil {
